@@ -99,6 +99,8 @@ structure ChargeData (Q : Type) where
   valid : Q → Q
   /-- order of `np.lexsort(charges.T)` (used by `sort_legcharges`, part 2) -/
   lt : Q → Q → Bool
+  /-- `chinfo.qnumber == 0`: charge vectors are empty arrays, `None - Ws_qtotal[i]` is an empty array, not a `TypeError` -/
+  noCharges : Bool
 
 abbrev Charges (Q : Type) := List (List (Option Q))
 
@@ -143,7 +145,9 @@ def lrVisit (L : Nat) (infinite : Bool) (layers : List (List (Edge Key α))) (os
   match keyIdx (ost.getD i []) keyL with
   | none => .error .key
   | some l =>
-    match getCh ch i l with
+    match (match getCh ch i l with
+      | some qL => some qL
+      | none => if cd.noCharges then some 0 else none) with
     | none => .error .type
     | some qL =>
       let out := outDict (layers.getD i []) keyL
@@ -213,11 +217,15 @@ def rlLoop (L : Nat) (layers : List (List (Edge Key α))) (ost : List (List Key)
     | .ok (ch', rep, prog) =>
       if !rep then .ok ch' else if !prog then .error .value else rlLoop L layers ost cd n ch'
 
-/-- conversion of the charge lists (`chinfo.make_valid(ch)`); an unknown charge is a `TypeError` -/
+/-- conversion of the charge lists (`chinfo.make_valid(ch)` bond by bond); a list of unknown charges only is a
+`TypeError` (`int(None)`), a list mixing known and unknown charges a `ValueError` (inhomogeneous array) -/
 def finishCharges (cd : ChargeData Q) (ch : Charges Q) : Except Err (List (List Q)) :=
   if ch.all (fun l => l.all (fun o => o.isSome)) then
     .ok (ch.map (fun l => l.filterMap (fun o => o.map cd.valid)))
-  else .error .type
+  else
+    match ch.find? (fun l => !l.all (fun o => o.isSome)) with
+    | some l => if l.all (fun o => o.isNone) then .error .type else .error .value
+    | none => .error .type
 
 /-- `MPOGraph._calc_legcharges(Ws_qtotal)`; result: the charges of the `L + 1` legs as flat lists -/
 def legcharges (g : Graph α) (cd : ChargeData Q) : Except Err (List (List Q)) :=
